@@ -4,6 +4,7 @@ CONSTANTS
   ViolKinds = {"v_stray", "v_undecl", "v_cmt", "v_splice", "v_macro", "v_bogus", "v_define", "v_line", "v_str"}
   MaxItems = 2
   MinItems = 0
+  MaxCmt = 0
   Devs = {"NewlineLocNextLine", "SetlocAfterLookahead", "DotDotRestore"}
   Emit = TRUE
 INVARIANTS Inv_Emit
